@@ -617,6 +617,11 @@ class Interp:
                     return
                 except (NotLiteral, IndexError, TypeError):
                     pass
+            if cur is not None and cur.kind == "dict" and isinstance(target.slice, ast.Constant) and cur.items is not None:
+                items = dict(cur.items)
+                items[target.slice.value] = v
+                env[target.value.id] = V("dict", items=items)
+                return
             if cur is not None and cur.kind == "q":
                 env[target.value.id] = join(cur, v) if not v.is_top else TOP
             else:
@@ -755,6 +760,15 @@ class Interp:
                 if r is not None:
                     return r
             return self.top(node, "subscript of %s" % base.kind)
+        if isinstance(node, (ast.ListComp, ast.GeneratorExp)) and len(node.generators) == 1 and not node.generators[0].ifs:
+            it0 = self._eval(node.generators[0].iter, env)
+            if it0.kind == "tuple" and it0.name != "comp" and 0 < len(it0.items) <= 16:
+                outs = []
+                for x in it0.items:
+                    e = dict(env)
+                    self.assign(node.generators[0].target, x, e, None)
+                    outs.append(self._eval(node.elt, e))
+                return V("tuple", items=outs)
         if isinstance(node, (ast.ListComp, ast.GeneratorExp)):
             e = dict(env)
             for g in node.generators:
